@@ -33,6 +33,8 @@ def consts_text(consts):
 
 
 def mc_cfg(consts, invariant, spec="Spec", devs=True):
+    if invariant and " " in invariant:
+        invariant = invariant  # several invariants: "A B C"
     c = dict(consts)
     body = consts_text(c)
     if devs:
@@ -56,7 +58,7 @@ class Family:
     def __init__(self, name, mc_module, trace_module, driver, rounds, owns=None, devs=True,
                  invariant="DesignOK", harness_args=None, rule_text="", assumptions=None,
                  trace_consts=None, needs_gts=False, shards=NCPU, case_key=None, mc_workers=NCPU,
-                 tags=None, dedupe=False, gen_invariant=None, thorough_args=None):
+                 tags=None, dedupe=False, gen_invariant=None, thorough_args=None, mc_spec="Spec", gen_spec="Spec"):
         self.name = name
         self.mc_module = mc_module
         self.trace_module = trace_module
@@ -77,6 +79,8 @@ class Family:
         self.dedupe = dedupe
         self.gen_invariant = gen_invariant
         self.thorough_args = thorough_args or []
+        self.mc_spec = mc_spec
+        self.gen_spec = gen_spec
 
 
 def replay_cases(work, harness, fam, cases_file, tag, shards=None, extra_args=None):
@@ -125,7 +129,8 @@ def run_family(fam, prop, tier, seed, replay=None, extra_harness_args=None):
             extra += fam.thorough_args
         if fam.needs_gts:
             from vcore import build_gts
-            extra += ["-gts", build_gts(work)]
+            from vcore import REPO
+            extra += ["-gts", build_gts(work), "-data", os.path.join(REPO, "seqio", "testdata")]
         known = load_known()
         listed = {(k["property"], k["dev"]) for k in known.get("findings", []) if "dev" in k}
         if replay:
@@ -149,7 +154,7 @@ def run_family(fam, prop, tier, seed, replay=None, extra_harness_args=None):
             if rnd.get("seed_key"):
                 consts[rnd["seed_key"]] = seed
             if rnd.get("mc", True):
-                rc, out, dt = run_tlc(work, fam.mc_module, mc_cfg(consts, fam.invariant, devs=fam.devs),
+                rc, out, dt = run_tlc(work, fam.mc_module, mc_cfg(consts, fam.invariant, spec=fam.mc_spec, devs=fam.devs),
                                       workers=fam.mc_workers, timeout=3400, extra=["-continue"], heap="12g")
                 bad = tlc_failed(out)
                 if "UNEXPLAINED" in out or bad or rc != 0:
@@ -159,7 +164,7 @@ def run_family(fam, prop, tier, seed, replay=None, extra_harness_args=None):
                 mc_states += s
                 mc_trans += t
             cases = work.path("cases-%d.ndjson" % i)
-            rc, out, dt = run_tlc(work, fam.mc_module, mc_cfg(consts, fam.gen_invariant, devs=fam.devs),
+            rc, out, dt = run_tlc(work, fam.mc_module, mc_cfg(consts, fam.gen_invariant, spec=fam.gen_spec, devs=fam.devs),
                                   env={"CASES": cases}, workers=1, timeout=3400, heap="8g")
             if rc != 0 or tlc_failed(out) or not os.path.exists(cases):
                 raise Undecided("case generation failed:\n" + out[-3000:])
